@@ -9,7 +9,7 @@ LEVEL = "exploration"
 RULE = ("cases = one (identifier, data) frame - or one fast-packet payload - rendered by harness-side packers in every "
         "input format and variant (EByte, USB, Yacht Devices R/T upper/lower hex, Actisense with several timestamps, "
         "canboat plain with both timestamp syntaxes; fast packets frame-wise via 4 frame-level routes vs pre-assembled "
-        "via 2 whole-message routes) and decoded by fresh decoders; outcomes (message projection | None | error) must "
+        "via 2 whole-message routes) and decoded by fresh decoders, by decoders that live for the whole shard (each transmission twice) and by one decoder per format alive together and fed in lockstep; outcomes (message projection | None | error) must "
         "be pairwise equal; non-trivial = at least two routes returned a message and were compared; distinct = "
         "distinct (identifier, data/payload)")
 ASSUMPTIONS = ["harness packers (vf.wire) follow the gateway format documents", "timestamps and raw_can_data are not compared",
@@ -82,6 +82,35 @@ def framewise(kind, prio, pgn, src, dst, frames, tpad=0, long_lived=None):
                 raise AssertionError("message before last frame")
         return r
     return run
+
+
+def lockstep(prio, pgn, src, dst, frames):
+    """One decoder per frame-level format, all alive at the same time (an application listening to several
+    gateways): frame k is given to every one of them before frame k+1 goes to any."""
+    ident = wire.can_id(prio, pgn, src, dst)
+    pdu1 = ((pgn >> 8) & 0xFF) < 240
+    d_eff = dst if pdu1 else 255
+    kinds = ["ebyte", "usb", "yd", "plain"]
+    decs = {k: NMEA2000Decoder() for k in kinds}
+    outs = {k: ("none",) for k in kinds}
+    for n, f in enumerate(frames):
+        for k in kinds:
+            if outs[k][0] == "exc":
+                continue
+            dec = decs[k]
+            if k == "ebyte":
+                fn = lambda: dec.decode_tcp(wire.ebyte_frame(ident, f))          # noqa: E731
+            elif k == "usb":
+                fn = lambda: dec.decode_usb(wire.usb_frame(ident, f))            # noqa: E731
+            elif k == "yd":
+                fn = lambda: dec.decode_yacht_devices_string(wire.yd_line(ident, f).strip())      # noqa: E731
+            else:
+                fn = lambda: dec.decode_basic_string(wire.plain_line(prio, pgn, src, d_eff, f))    # noqa: E731
+            o = outcome(fn)
+            if o[0] == "msg" and n < len(frames) - 1:
+                o = ("exc", "AssertionError")
+            outs[k] = o
+    return {f"{k}_frames_lockstep": o for k, o in outs.items()}
 
 
 def compare(outs: dict, acc, w):
@@ -198,6 +227,7 @@ def run_shard(spec, acc):
                 # the long-lived decoders see every transmission, also those whose payload is rejected: a complete
                 # message that fails to decode must leave nothing behind (repeated transmission, same counter)
                 outs = {n: outcome(fn) for n, fn in routes.items()}
+                outs.update(lockstep(prio, d.pgn, src, dst, frames))
                 w.update({"fast": True, "seq": seq, "pad": pad})
                 msgs = compare(outs, acc, w)
                 acc.case((d.pgn, prio, src, dst, pb, pad) if msgs >= 2 else None)
